@@ -633,8 +633,17 @@ struct Emitter
                 O["op"] = B->getOpcodeStr().str();
                 O["l"] = lower(B->getLHS());
                 O["r"] = lower(B->getRHS());
-                if (B->getType()->isPointerType())
-                    addType(O, B->getType());
+                if (B->getType()->isPointerType()) {
+                    // type keys must not collide with the operand keys l / r
+                    json::Object T;
+                    addType(T, B->getType());
+                    if (auto pd = T.getInteger("pd"))
+                        O["pd"] = *pd;
+                    if (auto ts = T.getString("t"))
+                        O["ty"] = ts->str();
+                    if (auto rs = T.getString("r"))
+                        O["rr"] = rs->str();
+                }
                 return O;
             }
             case Stmt::ConditionalOperatorClass:
